@@ -259,10 +259,14 @@ fn main() {
 
     // 3. WDL essential grid
     let mut list = vec![];
-    for (_name, m) in wdl::essential_grid() {
+    for (name, m) in wdl::essential_grid() {
         let mv = serde_json::to_value(&m).unwrap();
         list.push(json!({"kind":"wdl","model":mv}));
         for to in 0..10u8 {
+            // 4096-tile maps (4.5 MB each): three targets are enough, every pair is reached by the other shapes
+            if name.contains(":dense:") && ![0u8, 2, 6].contains(&to) {
+                continue;
+            }
             list.push(json!({"kind":"wdl-convert","model":mv,"to":to}));
         }
     }
@@ -287,7 +291,7 @@ fn main() {
 
     lap("wdt-random");
     // 5. random WDL maps (+ one conversion each)
-    let n_wdl = check.tier.pick(2_000u32, 50_000);
+    let n_wdl = check.tier.pick(2_000u32, 40_000);
     pt::run(
         &check,
         "wdl-random",
